@@ -102,9 +102,32 @@ def doc_crosscheck(ctx, plans, tag, doc_cfg):
     outs = [x["out"] for x in rs]
     fname = "docx_%s.ndjson" % tag
     ctx.harness(["doc", "fmtgen", os.path.join(ctx.specdir, fname)] + outs)
-    cfg_text = "INIT Init\nNEXT Next\nCHECK_DEADLOCK FALSE\nCONSTANTS\n  File = \"%s\"\n" % fname
-    r = ctx.tlc("FullTrace", cfg_text, name="FullTrace_docx_" + tag, workers=16, timeout=6000, cont=True, xss="1g")
-    rc, res, _ = ctx.harness(["doc", "fmtcheck", r["out"]] + outs)
+    # TLC reads a whole record file into memory: the records are evaluated in parts of at most 120 000 (one TLC run each, one
+    # after the other), and the printed models are joined for the comparison
+    path = os.path.join(ctx.specdir, fname)
+    part, parts, n = None, [], 0
+    with open(path) as f:
+        for line in f:
+            if n % 120000 == 0:
+                if part:
+                    part.close()
+                parts.append("%s.part%d" % (fname, len(parts)))
+                part = open(os.path.join(ctx.specdir, parts[-1]), "w")
+            part.write(line)
+            n += 1
+    if part:
+        part.close()
+    joined = os.path.join(ctx.scratch, "FullTrace_docx_%s.joined.tlcout" % tag)
+    with open(joined, "w") as out:
+        for k, pn in enumerate(parts):
+            cfg_text = "INIT Init\nNEXT Next\nCHECK_DEADLOCK FALSE\nCONSTANTS\n  File = \"%s\"\n" % pn
+            r = ctx.tlc("FullTrace", cfg_text, name="FullTrace_docx_%s_%d" % (tag, k), workers=16, timeout=6000, cont=True, xss="1g")
+            with open(r["out"]) as f:
+                for line in f:
+                    if line.startswith('"{'):
+                        out.write(line)
+            os.remove(os.path.join(ctx.specdir, pn))
+    rc, res, _ = ctx.harness(["doc", "fmtcheck", joined] + outs)
     x = res.get("extra") or {}
     n = x.get("model_theorem_agree", 0)
     if x.get("model_theorem_differ") or n != x.get("model_theorem_expected", -1) or not n:
